@@ -4,8 +4,8 @@ import (
 	"encoding/json"
 	"fmt"
 	"io"
-	"regexp"
 	"os"
+	"regexp"
 	"runtime"
 	"runtime/debug"
 	"strconv"
